@@ -133,6 +133,18 @@ Definition d_remove (x : ident) : M unit := fun s =>
 Definition lit_or (ev : expr -> M Z) (init : option expr) : M Z :=
   match init with Some (ENum z) => ret z | Some e => ev e | None => ret 0 end.
 
+(* whole-struct copy through the dynamic lookup (the member cells are found like any other name) *)
+Fixpoint dcopy_cells (dst src : ident) (idxs : list (list Z)) : M unit :=
+  match idxs with
+  | [] => ret tt
+  | i :: r => v <- d_read src i ;; d_write dst i v ;;; dcopy_cells dst src r
+  end.
+Fixpoint dcopy_members (x y : ident) (j : nat) (flds : list fld) : M unit :=
+  match flds with
+  | [] => ret tt
+  | f :: r => dcopy_cells (mkey x j) (mkey y j) (all_idx (fdims f)) ;;; dcopy_members x y (S j) r
+  end.
+
 Section Mech.
 Variable blk : bool.
 Variable funcs : list func.
@@ -230,6 +242,8 @@ with mexec (n : nat) (st : stmt) {struct n} : M unit :=
     | SReturn (Some e) => v <- meval k e ;; lift (Ret (Some v))
     | SBlock ss => blockm (exec_list (mexec k) ss)
     | SPrint nl args => print_args (meval k) true args ;;; if nl then m_out ONl else ret tt
+    | SStruct _ x flds => decl_members x 0 flds
+    | SCopy x y flds => dcopy_members x y 0 flds
     end
   end.
 End Mech.
